@@ -125,7 +125,14 @@ func retryOne(f []string) string {
 			items = append(items, it)
 		}
 	}
-	ctx, cancel := context.WithCancel(context.Background())
+	// in half of the cases the context also has a (distant) deadline: what cuts a wait short is the cancellation, not the deadline
+	parent := context.Background()
+	if len(items)%2 == 1 {
+		var pc context.CancelFunc
+		parent, pc = context.WithDeadline(parent, time.Now().Add(72*time.Hour))
+		defer pc()
+	}
+	ctx, cancel := context.WithCancel(parent)
 	defer cancel()
 	if cancelMode == "pre" {
 		cancel()
@@ -141,12 +148,22 @@ func retryOne(f []string) string {
 	origWait := bigbuff.VerifSwapWaitDuration(nil)
 	bigbuff.VerifSwapWaitDuration(func(wctx context.Context, d time.Duration) {
 		if waits == waitCancel {
-			cancel()
-			// the real wait must be cut short by the cancellation
-			t0 := time.Now()
-			origWait(wctx, time.Hour)
-			if time.Since(t0) > 5*time.Second {
-				waitCut = false
+			// the real wait (an hour) must be cut short by the cancellation, whether it lands before the wait begins or a
+			// moment after it began
+			done := make(chan struct{})
+			late := (waitCancel+len(items))%2 == 1
+			if !late {
+				cancel()
+			}
+			go func() { origWait(wctx, time.Hour); close(done) }()
+			if late {
+				time.Sleep(time.Millisecond)
+				cancel()
+			}
+			select {
+			case <-done:
+			case <-time.After(5 * time.Second):
+				waitCut = false // (the waiting goroutine is left behind)
 			}
 		}
 		waits++
@@ -179,6 +196,11 @@ func retryOne(f []string) string {
 			return it.result, nil
 		case 'e':
 			b := fmt.Errorf("e%d", it.id)
+			if it.id%2 == 1 {
+				// a plain failure whose CAUSE is a fatal error (FatalError further down the Unwrap chain): what counts is the
+				// outermost error, so this is retried like any other plain failure
+				b = fmt.Errorf("e%d: %w", it.id, bigbuff.FatalError(fmt.Errorf("deep cause of e%d", it.id)))
+			}
 			bases[it.id] = b
 			return it.result, b
 		default:
